@@ -549,3 +549,16 @@ Proof.
   destruct (K Pe Px PE PX) as (K1 & K2 & _).
   exists Pe, Px. repeat split; assumption.
 Qed.
+
+(* the precision the density uses and the covariance compute_cov() caches are inverse to each other in the model, for every
+   parameterisation *)
+Theorem precision_times_cov p dim c P C :
+  precision_model p dim c = Some P -> compute_cov_model p dim c = Some C ->
+  (qmatmul (length P) P C = qident (length P) \/ qmatmul (length C) P C = qident (length C)).
+Proof.
+  unfold precision_model, compute_cov_model. cbv zeta. destruct p.
+  - intros HP HC. injection HC as <-. apply qinv_sound in HP as [_ HP]. right. exact HP.
+  - intros HP HC. injection HP as <-. apply qinv_sound in HC as [HC _]. left. exact HC.
+  - intros HP HC. injection HC as <-. apply qinv_sound in HP as [_ HP]. right. exact HP.
+  - intros HP HC. injection HP as <-. apply qinv_sound in HC as [HC _]. left. exact HC.
+Qed.
